@@ -4,7 +4,7 @@
 import json
 import sys
 
-from rzilcompiler.Transformer.ValueType import ValueType, c11_cast, promoted_type
+from rzilcompiler.Transformer.ValueType import ValueType, VTGroup, c11_cast, promoted_type
 
 
 def snap(t):
@@ -40,6 +40,82 @@ def main():
                 ev.append(["c", int(sa), wa, int(sb), wb, int(ra.signed), ra.bit_width, int(rb.signed), rb.bit_width, fl])
             except Exception:
                 ev.append(["c", int(sa), wa, int(sb), wb, 0, 0, 0, 0, 32])
+    # --- argument objects as the compiler really passes them: with group flags set (CONST, BOOL,
+    # HYBRID_LVAR), the same object on both sides, and callers that change a *returned* type in place
+    # afterwards (RZILTransformer does: t.signed = False, t.group |= CONST, h_tmp_type.group |= ...).
+    # Flag 64: changing a returned object (one that is not the argument itself) changed an argument or
+    # the result of a later identical call, i.e. the function hands out shared state.
+    groups = [VTGroup.PURE | VTGroup.CONST, VTGroup.PURE | VTGroup.BOOL, VTGroup.PURE | VTGroup.HYBRID_LVAR]
+    sub = [t for t in types if t[1] in (1, 8, 16, 31, 32, 33, 64, 128, 2048) or t[1] == widths[len(widths) // 2]]
+
+    def mk(s, w, g):
+        t = ValueType(s, w)
+        if g is not None:
+            t.group = g
+        return t
+
+    for gi, (ga, gb) in enumerate([(None, None), (groups[0], None), (None, groups[0]), (groups[1], groups[1]),
+                                   (groups[2], groups[0]), (groups[1], None)]):
+        for (sa, wa) in sub:
+            for (sb, wb) in sub:
+                a, b = mk(sa, wa, ga), mk(sb, wb, gb)
+                a0, b0 = snap(a), snap(b)
+                fl = 0
+                try:
+                    ra, rb = c11_cast(a, b)
+                    if snap(a) != a0:
+                        fl |= 1
+                    if snap(b) != b0:
+                        fl |= 2
+                    res = (int(ra.signed), ra.bit_width, int(rb.signed), rb.bit_width)
+                    # the caller changes what it was handed
+                    for r, arg in ((ra, a), (rb, b)):
+                        if r is not a and r is not b:
+                            r.signed = not r.signed
+                            r.bit_width = r.bit_width + 3
+                            r.group |= VTGroup.HYBRID_LVAR
+                    if snap(a) != a0 or snap(b) != b0:
+                        fl |= 64
+                    ra2, rb2 = c11_cast(mk(sa, wa, ga), mk(sb, wb, gb))
+                    if (int(ra2.signed), ra2.bit_width, int(rb2.signed), rb2.bit_width) != res:
+                        fl |= 64
+                    ev.append(["c", int(sa), wa, int(sb), wb, res[0], res[1], res[2], res[3], fl])
+                except Exception:
+                    ev.append(["c", int(sa), wa, int(sb), wb, 0, 0, 0, 0, 32])
+    for (s, w) in types:                         # one object on both sides
+        for g in [None] + groups:
+            t = mk(s, w, g)
+            t0 = snap(t)
+            fl = 0
+            try:
+                ra, rb = c11_cast(t, t)
+                if snap(t) != t0:
+                    fl |= 3
+                ev.append(["c", int(s), w, int(s), w, int(ra.signed), ra.bit_width, int(rb.signed), rb.bit_width, fl])
+            except Exception:
+                ev.append(["c", int(s), w, int(s), w, 0, 0, 0, 0, 32])
+    for (s, w) in types:                         # promotion with flags and with a caller that changes the result
+        for g in [None] + groups:
+            t = mk(s, w, g)
+            t0 = snap(t)
+            fl = 0
+            try:
+                r = promoted_type(t)
+                if snap(t) != t0:
+                    fl |= 1
+                res = (int(r.signed), r.bit_width)
+                if r is not t:
+                    r.signed = not r.signed
+                    r.bit_width = r.bit_width + 3
+                    r.group |= VTGroup.CONST
+                    if snap(t) != t0:
+                        fl |= 64
+                r2 = promoted_type(mk(s, w, g))
+                if (int(r2.signed), r2.bit_width) != res:
+                    fl |= 64
+                ev.append(["p", int(s), w, res[0], res[1], fl])
+            except Exception:
+                ev.append(["p", int(s), w, 0, 0, 32])
     for (s, w) in types:
         t = ValueType(s, w)
         t0 = snap(t)
